@@ -28,7 +28,8 @@ RULE = ("a ThreadedWriter around a recording destination (with a failure mask ov
         "stopService's result completes; nothing is passed twice; per-producer order and real-time order of non-overlapping offers "
         "are kept; all writes of a cycle happen on one thread that is none of the callers; a destination exception loses only that "
         "message; in part of the runs the wrapped destination itself offers a message from inside its call (never handled re-entrantly, "
-        "queued behind everything offered before); with a stalled destination (logical clock) further offers never wait. non-trivial = schedule whose preemption fired in logwriter.py or with stop concurrent to offers; distinct by "
+        "queued behind everything offered before); with a stalled destination (logical clock) further offers never wait; two fifths of the messages are dict subclasses whose == answers "
+        "True to anything or only works against mappings, half of the destination failures carry unhashable arguments. non-trivial = schedule whose preemption fired in logwriter.py or with stop concurrent to offers; distinct by "
         "interleaving hash")
 ASSUMPTIONS = ["twisted is not installed: Service and deferToThreadPool are the stand-ins of vf/twisted_stub.py, which reproduce only the two "
                "behaviours ThreadedWriter relies on", "messages offered concurrently with stopService are only required to be written at most once"]
